@@ -44,12 +44,25 @@ def run_rt(spec, acc):
         raw = bytes(msg.dgram)
         cap = getattr(tls, 'cap', None)
         (cap if cap is not None else stray).append(raw)
+        if target in bs_targets:
+            # play scsynth for the bind+sync servers: answer /sync with
+            # /synced through the interface's own request handler
+            try:
+                d = osc.decode(raw)
+                last = d.elements[-1] if isinstance(d, osc.Bundle) and \
+                    d.elements else None
+                if isinstance(last, osc.Msg) and last.addr == '/sync':
+                    iface._handle_request(
+                        osc.enc_msg('/synced', last.args[0]), target)
+            except Exception:
+                pass        # the datagram itself is judged offline
         if forward[0]:
             try:
                 orig_send(msg, loop_target)
             except OSError:
                 fwd_errors[0] += 1
 
+    bs_targets = {('127.0.0.1', 57210 + j) for j in range(3)}
     iface._send = hook
 
     incoming = []
@@ -79,6 +92,8 @@ def run_rt(spec, acc):
     # (two servers cannot share an address; the recorder ignores the target)
     srv_r = Server('c07-routines', NetAddr('127.0.0.1', 57201))
     srv_m = Server('c07-main', NetAddr('127.0.0.1', 57202))
+    srv_bs = [Server(f'c07-bindsync{j}', NetAddr('127.0.0.1', 57210 + j))
+              for j in range(3)]
     BIND_LATS = [0, 0, 0.0, 0.0, 0.2, 0.05, None, -1, -0.0]
 
     def do_send(kind, lst, srv=srv_r):
@@ -315,6 +330,72 @@ def run_rt(spec, acc):
                            'instants': inst})
         acc.case(h64(('main', M.srepr(pristine))), nontrivial=bool(inst))
 
+    def check_bind_sync(i, rec):
+        """One `with server.bind():  msgs; yield from server.sync(latency=Ls);
+        msgs` block.  Every collected message must leave in a bundle stamped
+        logical time + server.latency (before the sync: at the logical time
+        of the block, after it: at the logical time the routine resumed,
+        which is the same instant because the reply is handled at the
+        routine's logical time); only /sync follows sync()'s own latency.
+        Expected logical time is the independent one (sched_abs + deltas)."""
+        cname, Lsrv, Ls, pre, post, t_ind, t_seen, t2_seen, caps, exc = rec
+        w = {'case': i, 'clock': cname, 'server_latency': Lsrv,
+             'sync_latency': Ls, 'expected_logical_time': t_ind,
+             'logical_time_reported': [t_seen, t2_seen]}
+        if exc is not None:
+            acc.count(f'rt_bind_sync_raised/{exc_key(exc)}')
+            return
+        tol = 0 if cname == 'SystemClock' else 5
+
+        def tag(L):
+            return 1 if (L is None or L < 0) else int((L + t_ind) * TWO32) + off
+        where = {}          # (sid, k) | 'sync' -> [(datagram index, timetag)]
+        try:
+            for j, raw in enumerate(caps):
+                d = osc.decode(raw)
+                if not isinstance(d, osc.Bundle):
+                    raise osc.OscError('datagram is not a bundle')
+                for e in d.elements:
+                    key = 'sync' if e.addr == '/sync' else (e.args[0], e.args[1])
+                    where.setdefault(key, []).append((j, d.timetag))
+        except Exception as e:
+            acc.violation(f'C07/rt/bind-sync/nonconformant-datagram',
+                          dict(w, error=str(e)[:200]))
+            return
+        want = [(m[1], m[2]) for m in pre] + ['sync'] + [(m[1], m[2]) for m in post]
+        if sorted(map(str, where)) != sorted(map(str, want)) or \
+                any(len(v) != 1 for v in where.values()) or \
+                [where[k][0][0] for k in want] != sorted(where[k][0][0] for k in want):
+            acc.violation('C07/rt/bind-sync/messages-lost-duplicated-or-reordered',
+                          dict(w, datagrams=len(caps),
+                               found={str(k): v for k, v in where.items()}))
+            return
+        acc.count('rt_bind_sync_blocks_checked')
+        for part, msgs in (('pre-sync', pre), ('post-sync', post)):
+            for m in msgs:
+                got = where[(m[1], m[2])][0][1]
+                exp = tag(Lsrv)
+                acc.count('rt_bind_sync_timetags_compared')
+                if abs(got - exp) <= (tol if exp != 1 else 0):
+                    continue
+                if abs(got - tag(Ls)) <= (tol if tag(Ls) != 1 else 0):
+                    cls = 'stamped-with-the-latency-argument-of-sync'
+                elif got == 1:
+                    cls = 'stamped-immediately'
+                else:
+                    cls = 'other'
+                acc.violation(
+                    'C07/rt/bind-sync/collected-messages-not-stamped-logical-'
+                    f'time-plus-server-latency/{part}/{cls}',
+                    dict(w, expected_timetag=exp, decoded_timetag=got,
+                         datagrams=len(caps)))
+                return
+        got = where['sync'][0][1]
+        acc.count('rt_bind_sync_timetags_compared')
+        if abs(got - tag(Ls)) > (tol if tag(Ls) != 1 else 0):
+            acc.violation('C07/rt/bind-sync/sync-message-timetag-differs',
+                          dict(w, expected_timetag=tag(Ls), decoded_timetag=got))
+
     def check_incoming(i, sends, info):
         """info: sid -> (t | None, p0).  Callback time of a message of a
         timed bundle must be (t + L) within 2**-31 s (timetag truncation
@@ -353,7 +434,7 @@ def run_rt(spec, acc):
         del incoming[:]
         sids = itertools.count((i % 20000) * 100000)     # stays below 2**31
         sends = {}
-        records, mrecords = [], []
+        records, mrecords, bs_records = [], [], []
         tclocks = [(TempoClock(tp), tp) for tp in
                    [rng.choice([0.5, 1, 2, 3.7, 8])
                     for _ in range(rng.randint(1, 2))]]
@@ -460,6 +541,64 @@ def run_rt(spec, acc):
                     aclock.sched_abs(start * atempo, Routine(make_body(
                         kind_c, aclock, steps, ev, texp)))
 
+            # ---- bind() blocks with a sync inside (own Server each, because
+            # the block is suspended at the sync while other routines run)
+            def make_bind_sync(cname, clock, srv, blocks, ev):
+                def body():
+                    try:
+                        for Lsrv, Ls, pre, post, delta, t_ind in blocks:
+                            cap = []
+                            tls.cap = cap
+                            t = clock.seconds
+                            t2 = exc = None
+                            try:
+                                srv.latency = Lsrv
+                                with srv.bind():
+                                    for m in pre:
+                                        srv.addr.send_msg(*m)
+                                    yield from srv.sync(latency=Ls)
+                                    tls.cap = cap
+                                    t2 = clock.seconds
+                                    for m in post:
+                                        srv.addr.send_msg(*m)
+                            except Exception as e:
+                                exc = e
+                            tls.cap = None
+                            bs_records.append((cname, Lsrv, Ls, pre, post, t_ind,
+                                               t, t2, cap, exc))
+                            yield delta
+                    finally:
+                        ev.set()
+                return body
+
+            for j in range(rng.randint(1, 3)):
+                kind_c = rng.choice(['SystemClock', 'SystemClock', 'TempoClock'])
+                start = rng.choice(offs)
+                t_log, beat = T0 + start, start * atempo
+                blocks = []
+                for _ in range(rng.randint(1, 2)):
+                    sid = next(sids)
+                    msgs = [['/c7', sid, k, rng.choice([1, 0.5, 'x', b'ab'])]
+                            for k in range(rng.randint(1, 4))]
+                    npre = rng.randint(1, len(msgs))
+                    dsec = rng.choice([0.003, 0.007, 0.02])
+                    t_ind = t_log if kind_c == 'SystemClock' else T0 + beat / atempo
+                    blocks.append((rng.choice([0, 0.0, 0.2, 0.05, 0.2, None]),
+                                   rng.choice([None, None, 0, 0.3, 0.1, -1]),
+                                   msgs[:npre], msgs[npre:],
+                                   dsec if kind_c == 'SystemClock' else dsec * atempo,
+                                   t_ind))
+                    t_log = t_log + dsec
+                    beat = beat + dsec * atempo
+                ev = threading.Event()
+                events.append(ev)
+                if kind_c == 'SystemClock':
+                    SystemClock.sched_abs(T0 + start, Routine(make_bind_sync(
+                        kind_c, SystemClock, srv_bs[j], blocks, ev)))
+                else:
+                    aclock.sched_abs(start * atempo, Routine(make_bind_sync(
+                        kind_c, aclock, srv_bs[j], blocks, ev)))
+
             def locker(at, dur):
                 while main.elapsed_time() < at:
                     time.sleep(0.0005)
@@ -554,6 +693,8 @@ def run_rt(spec, acc):
             info[rec[0]] = (None, rec[2])
             check_main_send(i, rec, sends)
         check_incoming(i, sends, info)
+        for rec in list(bs_records):
+            check_bind_sync(i, rec)
         acc.count('rt_rounds')
 
     try:
